@@ -53,7 +53,7 @@ Penalties(s, d) ==
     [] s = "GramCD"                          -> {"L1", "WeightedL1", "L1_plus_L2", "MCPenalty", "L1pos", "SCAD"}
     [] s = "PDCD_WS"                         -> {"L1"}
     [] s = "FISTA"                           -> {"L1", "L1_plus_L2", "WeightedL1", "MCPenalty", "L1pos"}
-    [] OTHER                                 -> ScalarPen \ {"IndicatorBox"}
+    [] OTHER                                 -> ScalarPen
 
 HasIntercept(s, d) == s \in {"AndersonCD", "ProxNewton", "GroupBCD", "GroupProxNewton", "MultiTaskBCD"}
                       /\ d \notin {"QuadraticSVC", "Cox", "CoxEfron"}
@@ -109,7 +109,9 @@ PickP0 == stage = "p0" /\ \E q \in (IF HasP0(sc.solver) THEN P0s ELSE {"p"}) : S
 PickIters == stage = "iters" /\ \E n \in MaxIters : Set("max_iter", n)
 PickEpochs == stage = "epochs" /\ \E n \in (IF HasEpochs(sc.solver) THEN MaxEpochs ELSE {200}) : Set("max_epochs", n)
 PickTol == stage = "tol" /\ \E t \in Tols : Set("tol", t)
-PickWarm == stage = "warm" /\ \E w \in (IF sc.fit_intercept THEN Warms ELSE Warms \ {"intercept_only"}) : Set("warm", w)
+\* a start outside the feasible set is legitimate (e.g. a warm_start refit after shrinking the box)
+PickWarm == stage = "warm" /\ \E w \in ((IF sc.fit_intercept THEN Warms ELSE Warms \ {"intercept_only"})
+                                        \cup (IF sc.penalty \in ConstrPen THEN {"infeasible"} ELSE {})) : Set("warm", w)
 PickWeights == stage = "weights" /\ \E w \in (IF sc.penalty \in {"WeightedL1", "WeightedL1pos", "WeightedMCPenalty", "WeightedMCPpos",
                                                                    "WeightedGroupL2", "WeightedGroupL2pos", "WeightedL1GroupL2"}
                                                THEN Weights ELSE {"unit"}) : Set("weights", w)
